@@ -866,7 +866,11 @@ ATTR_VALUES = [b"", b"0", b"1", b"-1", b"A1:XFD1048576", b"2147483648", b"429496
                b"99999999999999999999", b"1e400", b"x", b"A0", b"1A", b"A1:", b":", b"A1:B2:C3", b"B2:A1", b"C1:A5", b"A5:C1", b"C2:A2", b"XFD1048577",
                b"ZZZZZZZ99999999999", b"A4294967295", b"A4294967296", b"FXSHRXX1", b"$A$1", b"&#0;", b"&bogus;", b"\xff\xfe"]
 TEXT_VALUES = [b"", b"0", b"-1", b"4294967295", b"4294967296", b"99999999999999999999", b"1e400", b"nan", b"x",
-               b"&#xFFFFFFFF;", b"&bogus;", b"<![CDATA[", b"<x>", b"\xff\xfe", b"A" * 70000]
+               b"&#xFFFFFFFF;", b"&bogus;", b"<![CDATA[", b"<x>", b"\xff\xfe", b"A" * 70000,
+               # ST_Xstring look-alikes next to characters of several bytes (a decoder must not cut
+               # inside a character), at every phase of the seven bytes
+               "_x\u65e5\u672c\u8a9e".encode(), "_x0\u00e9\u00e9\u00e9".encode(), "_x00\u20ac_".encode(),
+               "_x000\U0001F600".encode(), "a_x\u00e9\u00e9\u00e9\u00e9\u00e9".encode(), b"_x000D", b"_x_x_x_x"]
 START_TAG = re.compile(rb'<([A-Za-z_][\w:.-]*)((?:\s+[A-Za-z_:][\w:.-]*\s*=\s*"[^"<]*")*)\s*(/?)>')
 ATTR_RE = re.compile(rb'\s+([A-Za-z_:][\w:.-]*)\s*=\s*"([^"<]*)"')
 TEXT_EL = re.compile(rb'<([A-Za-z_][\w:.-]*)((?:\s[^<>]*)?)>([^<]+)</\1>')
